@@ -221,3 +221,5 @@ func concat(parts []string, out string) (int, error) {
 	}
 	return lines, nil
 }
+
+func fmtPart(i int) string { return filepath.Join(*fWork, fmt.Sprintf("part-%05d.ndjson", i)) }
